@@ -7,6 +7,7 @@ package main
 
 import (
 	"fmt"
+	"go/types"
 	"strings"
 
 	"golang.org/x/tools/go/ssa"
@@ -192,4 +193,40 @@ func (c *Ctx) taintValue(v Value) {
 			c.taintValue(e)
 		}
 	}
+}
+
+// checkGuarded: lock discipline. Every access to a field of a struct of the guarded type (other than its
+// embedded mutex) made by the code under test must happen while the ghost held-flag of that mutex is set.
+func (c *Ctx) checkGuarded(st *State, in *ssa.FieldAddr, base Pointer) {
+	if c.guardType == "" || c.inSpecCode(in) {
+		return
+	}
+	pt, ok := in.X.Type().Underlying().(*types.Pointer)
+	if !ok {
+		return
+	}
+	nt, ok := pt.Elem().(*types.Named)
+	if !ok || nt.Obj().Name() != c.guardType {
+		return
+	}
+	stt := nt.Underlying().(*types.Struct)
+	mu := -1
+	for i := 0; i < stt.NumFields(); i++ {
+		if namedIs(stt.Field(i).Type(), "sync", "Mutex") {
+			mu = i
+		}
+	}
+	if mu < 0 || in.Field == mu {
+		return
+	}
+	// constructors touch the fields before the object is shared: only methods of the type are checked
+	if fn := in.Parent(); fn.Signature.Recv() == nil {
+		return
+	}
+	held, _ := st.ghost[ghostKey(base.child(PathElem{Idx: mu}), "held")].(*Term)
+	if held == nil {
+		held = FalseT
+	}
+	pos := c.posOf(in)
+	c.addOb(st, "lock", fmt.Sprintf("lock discipline: %s.%s accessed with the mutex held @%s", c.guardType, stt.Field(in.Field).Name(), pos), pos, held)
 }
